@@ -96,6 +96,8 @@ partial def toExpr : SExp → Option Expr
   | .list (.atom "call" :: .atom f :: es) => do some (.call f (Exprs.ofList (← allSome (es.map toExpr))))
   | .list (.atom "callv" :: f :: es) => do some (.callv (← toExpr f) (Exprs.ofList (← allSome (es.map toExpr))))
   | .list [.atom "lam", .list (.atom "params" :: ps), body] => do some (.lam (← atoms ps) (← toExpr body))
+  | .list [.atom "fnref", .atom f] => some (.fnref f)
+  | .list [.atom "mkref", .atom f] => some (.mkref f)
   | .list [.atom "try", a] => do some (.try_ (← toExpr a))
   | .list [.atom "unwrap", a] => do some (.unwrap (← toExpr a))
   | .list [.atom "panic", a] => do some (.panic (← toExpr a))
